@@ -136,6 +136,8 @@ type Action struct {
 	OpKind string `json:"op_kind,omitempty"`
 	Phase  string `json:"phase,omitempty"`
 	Delay  Dur    `json:"delay,omitempty"`
+	// OnInst: the operation counted is that of instance OnInst-1 instead of the action's own (0 = own)
+	OnInst int `json:"on_inst,omitempty"`
 
 	Kind string `json:"kind"`
 	Inst int    `json:"inst"` // index into Plan.Insts (ignored for outsider actions)
